@@ -693,10 +693,10 @@ pub fn run_diff(
                         1 => Op::Abs { p: format!("{}/x/../y", if k == "/" { "" } else { &k }) },
                         _ => Op::Abs { p: k },
                     };
-                    stats.bump("fault.F9_working_directory_vanished.calls_while_gone");
+                    stats.bump("fault.F13_working_directory_vanished.calls_while_gone");
                 } else if cwd_fault && m.t.cwd != "/" && m.k(&m.t.cwd) == K::Dir && m.t.children(&m.t.cwd).is_empty() && rng.chance(1, 6) {
                     op = Op::Remove { p: m.t.cwd.clone() };
-                    stats.bump("fault.F9_working_directory_vanished");
+                    stats.bump("fault.F13_working_directory_vanished");
                 }
                 if !admissible_x(&m, &op, cwd_fault) || !comparable(&op) || !handle_ok(&live, &m, &op) {
                     continue;
